@@ -186,6 +186,99 @@ fn panic_signature(prop: &str, stage: &str, p: &crate::run::PanicInfo, gp: &Prag
     format!("{prop}|{stage}-panic|{}|{}|{}", p.file(), msg.trim(), ctx.join("+"))
 }
 
+/// Third phase: limits tightened to just below what a fresh solution uses, so that max-distance / max-duration /
+/// tour-size / shift-end become BINDING rules (the randomly drawn limits of G1 rarely are). The problem stays valid:
+/// a tighter limit only moves jobs to the unassigned list. Returns the modified problem and the kinds tightened.
+pub fn tighten_limits(rng: &mut Rng, gp: &PragProblem, solution: &Value) -> Option<(PragProblem, Vec<&'static str>)> {
+    use std::collections::BTreeMap;
+    // per vehicle type: max distance, duration, job activities; per (type, shift): latest arrival at the last stop
+    let mut dist: BTreeMap<String, f64> = BTreeMap::new();
+    let mut dur: BTreeMap<String, f64> = BTreeMap::new();
+    let mut size: BTreeMap<String, i64> = BTreeMap::new();
+    let mut last_arrival: BTreeMap<(String, usize), i64> = BTreeMap::new();
+    for t in solution["tours"].as_array()? {
+        let ty = t["typeId"].as_str()?.to_string();
+        let d = t["statistic"]["distance"].as_f64()?;
+        let u = t["statistic"]["duration"].as_f64()?;
+        let jobs: std::collections::BTreeSet<&str> = t["stops"]
+            .as_array()?
+            .iter()
+            .flat_map(|s| s["activities"].as_array().into_iter().flatten())
+            .filter(|a| matches!(a["type"].as_str(), Some("pickup" | "delivery" | "service" | "replacement")))
+            .filter_map(|a| a["jobId"].as_str())
+            .collect();
+        let e = dist.entry(ty.clone()).or_insert(0.0);
+        *e = e.max(d);
+        let e = dur.entry(ty.clone()).or_insert(0.0);
+        *e = e.max(u);
+        let e = size.entry(ty.clone()).or_insert(0);
+        *e = (*e).max(jobs.len() as i64);
+        let arr = t["stops"].as_array()?.last().and_then(|s| s["time"]["arrival"].as_str()).and_then(crate::timeutil::parse_time)?;
+        let e = last_arrival.entry((ty, t["shiftIndex"].as_u64().unwrap_or(0) as usize)).or_insert(i64::MIN);
+        *e = (*e).max(arr);
+    }
+    let mut out = gp.clone();
+    let mut kinds: Vec<&'static str> = Vec::new();
+    let which: Vec<bool> = (0..4).map(|_| rng.chance(0.5)).collect();
+    for v in out.problem["fleet"]["vehicles"].as_array_mut()? {
+        let ty = v["typeId"].as_str()?.to_string();
+        let f = 0.55 + 0.43 * rng.f64();
+        if which[0] {
+            if let Some(d) = dist.get(&ty).filter(|d| **d >= 4.0) {
+                v["limits"]["maxDistance"] = json!((d * f).floor().max(1.0));
+                kinds.push("limit-distance");
+            }
+        }
+        if which[1] {
+            if let Some(u) = dur.get(&ty).filter(|u| **u >= 4.0) {
+                v["limits"]["maxDuration"] = json!((u * f).floor().max(1.0));
+                kinds.push("limit-duration");
+            }
+        }
+        if which[2] {
+            if let Some(n) = size.get(&ty).filter(|n| **n >= 2) {
+                v["limits"]["tourSize"] = json!((*n - rng.range_i64(1, (*n - 1).min(3))).max(1));
+                kinds.push("limit-size");
+            }
+        }
+        if which[3] {
+            for (si, shift) in v["shifts"].as_array_mut()?.iter_mut().enumerate() {
+                let Some(arr) = last_arrival.get(&(ty.clone(), si)) else { continue };
+                let Some(start) = shift["start"]["earliest"].as_str().and_then(crate::timeutil::parse_time) else { continue };
+                let Some(end) = shift.get("end").filter(|e| e.is_object()) else { continue };
+                let Some(latest) = end["latest"].as_str().and_then(crate::timeutil::parse_time) else { continue };
+                let cut = arr - rng.range_i64(1, ((arr - start) / 3).max(1));
+                // keep every break / reload window of the shift inside it: only cut when nothing is declared behind the cut
+                fn times_of(v: &Value, out: &mut Vec<i64>) {
+                    match v {
+                        Value::String(t) => out.extend(crate::timeutil::parse_time(t)),
+                        Value::Array(a) => a.iter().for_each(|x| times_of(x, out)),
+                        Value::Object(m) => m.values().for_each(|x| times_of(x, out)),
+                        _ => {}
+                    }
+                }
+                let mut declared = Vec::new();
+                times_of(shift, &mut declared);
+                let declared_behind = declared.iter().filter(|t| **t > cut).count() > 1 || shift.get("breaks").is_some();
+                if cut > start + 2 && cut < latest && !declared_behind && end.get("earliest").is_none() {
+                    shift["end"]["latest"] = json!(crate::timeutil::fmt_time(cut));
+                    kinds.push("shift-end");
+                }
+            }
+        }
+    }
+    if kinds.is_empty() {
+        return None;
+    }
+    kinds.sort();
+    kinds.dedup();
+    for k in kinds.iter().filter(|k| k.starts_with("limit-")) {
+        out.features.insert(k.to_string());
+    }
+    out.features.insert("tightened".into());
+    Some((out, kinds))
+}
+
 /// Tier-dependent generator configuration with a per-property emphasis.
 pub fn gen_cfg_for(prop: &str, rng: &mut Rng, thorough: bool) -> GenCfg {
     let mut cfg = GenCfg::default();
@@ -217,7 +310,7 @@ pub fn gen_cfg_for(prop: &str, rng: &mut Rng, thorough: bool) -> GenCfg {
 /// The C01/C02/C03 workload. Every solve is judged by O1; only issues of `prop` are reported by this run.
 pub fn run_end_to_end(run: &Run, prop: &'static str) {
     let thorough = !run.is_quick();
-    let cases: u64 = run.by_tier(400, 20_000);
+    let cases: u64 = run.by_tier(if prop == "C01" { 900 } else { 400 }, 20_000);
     let max_gens = run.by_tier(40usize, 200usize);
     par_for(4, cases, &|| !run.has_time(), &|i| {
         let case_seed = mix(run.seed, i);
@@ -257,11 +350,26 @@ pub fn run_end_to_end(run: &Run, prop: &'static str) {
         };
         judge_case(run, prop, case_seed, &gp, &config, &shape, problem.clone(), "base");
 
-        // second phase for a share of the cases: relations derived from a fresh feasible solution (C01 emphasis)
-        if prop == "C01" && rng.chance(0.35) && run.has_time() {
+        // second / third phase for a share of the cases, both derived from a fresh feasible solution (C01 emphasis):
+        // relations consistent with the constraints, and limits tightened until they bind
+        if prop == "C01" && rng.chance(0.5) && run.has_time() {
             let base_cfg = simple_config(rng.range_usize(5, 30), 1, 4);
             if let CaseOutcome::Done(res) = solve_and_replay(problem, &gp, &base_cfg) {
-                if res.report.is_clean() {
+                if res.report.is_clean() && rng.chance(0.4) {
+                    if let Some((gp3, kinds)) = tighten_limits(&mut rng, &gp, &res.solution) {
+                        for k in kinds.iter() {
+                            run.observe("tightened", k);
+                        }
+                        match read_problem(&gp3) {
+                            ReadOutcome::Ok(p3) => judge_case(run, prop, case_seed, &gp3, &config, &shape, p3, "tightened"),
+                            ReadOutcome::Err(codes, text) => run.inconclusive(&format!("tightened problem rejected: {codes:?} {}", clip(&text, 120))),
+                            ReadOutcome::Panic(p) => {
+                                run.eval();
+                                run.violation(&panic_signature(prop, "read", &p, &gp3), &format!("reader panicked on a problem with tightened limits: {} at {}", p.message, p.location), artefact(case_seed, &gp3, &config, None, p.to_json()));
+                            }
+                        }
+                    }
+                } else if res.report.is_clean() {
                     if let Ok(parsed) = PProblem::parse(&gp.problem, &gp.matrices) {
                         let rels = derive_relations(&mut rng, &parsed, &res.report);
                         if !rels.is_empty() {
